@@ -11,6 +11,7 @@ From KV Require Import Base.Sx Gen.Generated Model.Categorical Model.Concat Proo
 From KV Require Base.SelSlice Model.Select Proofs.SelectLawsP Model.ConcatSel Proofs.ConcatSelP Proofs.ConcatSelExP.
 From KV Require Base.AxisIndex Base.NdArray Model.LazyIdx Model.ConcatData Proofs.ConcatDataP Proofs.ConcatDataExP.
 From KV Require Model.ConcatIdent Proofs.ConcatIdentP Model.ConcatMulti Proofs.ConcatMultiP Proofs.ConcatMultiExP.
+From KV Require Model.ConcatMeta Proofs.ConcatMetaP.
 Import ListNotations.
 Open Scope nat_scope.
 
@@ -105,7 +106,7 @@ Proof. exact concat_expand_all. Qed.
 Print Assumptions C19_concat_expand.
 
 (* every other sensor (float / SIGNED int arrays, categorical data of float / signed integer / string / boolean /
-   object type; unsigned integer types: see C19_unsigned_sensor_* below) present in an arbitrary subset of the parts:
+   object type; unsigned integer types: see C19_unsigned_sensor below) present in an arbitrary subset of the parts:
    the whole presents the concatenation of the parts' values with the dummy value of the sensor's type (NaN, -1, '', False; C12)
    over the parts that lack it; KeyError iff no part has it; it only fails for a sensor that is categorical in one
    part and a plain array in another *)
@@ -131,31 +132,62 @@ Theorem C19_dummy_is_C12s : forall dt,
 Proof. exact dummy_code_def. Qed.
 Print Assumptions C19_dummy_is_C12s.
 
-(* FINDING C19-F4 (open).  [get_sensor_u] = ConcatenatedSensorCache.get including sensors whose common dtype is an
-   unsigned integer type ([uns]): when some part lacks such a sensor, dummy_sensor_getter evaluates
-   np.dtype(dtype).type(-1), which NumPy >= 2 refuses (OverflowError), so the sensor of the concatenation cannot be
-   read although the property asks for the concatenation with dummy fill.  _refuted: a concrete two-part
-   concatenation; _partial: C19_concat_expand_sensors for ConcatenatedSensorCache.get under the guard "not an
-   unsigned type, or no part lacks the sensor". *)
-Theorem C19_unsigned_sensor_refuted :
+(* FINDING C19-F4 (REPAIRED, katdal commit "fix: dummy_sensor_getter casts the integer dummy -1 into the sensor's type").
+   [get_sensor_u ... ubits] = ConcatenatedSensorCache.get including sensors whose common dtype is an unsigned integer type
+   of [ubits] bits (ubits = 0: one of the types above; then it IS get_sensor, C19_unsigned_sensor_signed_case).
+   dummy_sensor_getter now evaluates np.array(-1).astype(dtype)[()] (re-read by the translator, which refuses the old
+   np.dtype(dtype).type(-1)): -1 cast into the type.  FULL strength, no guard: for every opened concatenation, every
+   sensor, every width, every subset of the parts having it, the whole presents the concatenation of the parts' values
+   with the dummy of the type - the LARGEST value 2^ubits - 1 of an unsigned type ([spec_dummy_u]: the value the
+   documented dummy -1 is stored as; what NumPy < 2 produced) - over the parts that lack it. *)
+Theorem C19_unsigned_sensor : forall input ps m name ar ubits,
+  sort_parts input = Some ps -> Forall part_ok ps -> concat_open input = COk m -> Forall (sens_ok name) ps ->
+  match get_sensor_u (m_parts m) name ar ubits with
+  | RNum l => spec_sensor_u ubits ps name = Some l
+  | RCat c => spec_sensor_u ubits ps name = Some (zexpand c) /\ cd_ok (list_sum (map nT ps)) c
+  | RKeyError => spec_sensor_u ubits ps name = None
+  | RFail => mixed_kinds name ps = true
+  end.
+Proof. exact unsigned_sensor. Qed.
+Print Assumptions C19_unsigned_sensor.
+
+(* what must NOT change: for the types of C12's model (ubits = 0) nothing changed - same function, same spec, -1 for
+   integers; and the filler of an unsigned type lies inside the type (never -1) *)
+Theorem C19_unsigned_sensor_signed_case : forall ps name ar,
+  get_sensor_u ps name ar 0 = get_sensor ps name ar /\ spec_sensor_u 0 ps name = spec_sensor ps name.
+Proof. exact unsigned_signed_case. Qed.
+Print Assumptions C19_unsigned_sensor_signed_case.
+
+Theorem C19_unsigned_filler : forall ubits, (0 < ubits)%Z ->
+  (0 <= dummy_code_u ubits KV.Model.SensorCache.DInt < 2 ^ ubits)%Z /\
+  dummy_code_u ubits KV.Model.SensorCache.DInt = (2 ^ ubits - 1)%Z.
+Proof. exact unsigned_filler_in_range. Qed.
+Print Assumptions C19_unsigned_filler.
+
+(* non-vacuity: a uint8 sensor (3, 200, 200, 200) held by the first of two parts: 255, 255 over the second; as uint16
+   65535; as a signed sensor -1 *)
+Theorem C19_unsigned_sensor_example :
+  sort_parts ex_U = Some ex_U /\ Forall part_ok ex_U /\ concat_open ex_U = COk ex_Um /\ Forall (sens_ok 9%Z) ex_U /\
+  (match get_sensor_u (m_parts ex_Um) 9 false 8 with RCat c => Some (zexpand c, ev c) | _ => None end)
+    = Some ([3; 200; 200; 200; 255; 255]%Z, [0; 1; 4; 6]) /\
+  spec_sensor_u 8 ex_U 9 = Some [3; 200; 200; 200; 255; 255]%Z /\
+  spec_sensor_u 16 ex_U 9 = Some [3; 200; 200; 200; 65535; 65535]%Z /\
+  (match get_sensor_u (m_parts ex_Um) 9 false 16 with RCat c => Some (zexpand c) | _ => None end)
+    = Some [3; 200; 200; 200; 65535; 65535]%Z /\
+  (match get_sensor_u (m_parts ex_Um) 9 false 0 with RCat c => Some (zexpand c) | _ => None end)
+    = Some [3; 200; 200; 200; -1; -1]%Z.
+Proof. exact ex_unsigned. Qed.
+Print Assumptions C19_unsigned_sensor_example.
+
+(* BEFORE the repair ([get_sensor_u_before_fix]: np.dtype(dtype).type(-1) raises OverflowError under NumPy >= 2): the
+   same two-part concatenation could not be read where the spec answers *)
+Theorem C19_unsigned_sensor_refuted_before_fix :
   exists input ps m name l,
     sort_parts input = Some ps /\ Forall part_ok ps /\ concat_open input = COk m /\ Forall (sens_ok name) ps /\
     mixed_kinds name ps = false /\ spec_sensor ps name = Some l /\
-    get_sensor_u (m_parts m) name false true = RFail.
-Proof. exact ex_unsigned_refuted. Qed.
-Print Assumptions C19_unsigned_sensor_refuted.
-
-Theorem C19_unsigned_sensor_partial : forall input ps m name ar uns,
-  sort_parts input = Some ps -> Forall part_ok ps -> concat_open input = COk m -> Forall (sens_ok name) ps ->
-  uns = false \/ lacks_some ps name = false ->
-  match get_sensor_u (m_parts m) name ar uns with
-  | RNum l => spec_sensor ps name = Some l
-  | RCat c => spec_sensor ps name = Some (zexpand c) /\ cd_ok (list_sum (map nT ps)) c
-  | RKeyError => spec_sensor ps name = None
-  | RFail => mixed_kinds name ps = true
-  end.
-Proof. exact unsigned_sensor_partial. Qed.
-Print Assumptions C19_unsigned_sensor_partial.
+    get_sensor_u_before_fix (m_parts m) name false true = RFail.
+Proof. exact ex_unsigned_refuted_before_fix. Qed.
+Print Assumptions C19_unsigned_sensor_refuted_before_fix.
 
 (* cache[name] under the time selection: every part applies its own slice of the global mask; glued, that is the
    global mask applied to the whole series; and the slices tile the mask *)
@@ -286,6 +318,51 @@ Example C19_index_example :
 Proof. exact ConcatDataExP.ex_data_short. Qed.
 Print Assumptions C19_index_example.
 
+(* ------------------------------------------------------------------ parts of another size (finding C19-F5, OPEN) *)
+(* A concatenation whose parts have spectral windows with different numbers of channels / subarrays with different
+   numbers of products.  select(spw=w, subarray=s) deselects every dump of the parts of the other windows / subarrays
+   and ConcatenatedDataSet._set_keep hands EVERY part the channel / product masks of the selected ones.
+   [ds_getitem_sized strict] = vis / flags / weights of such a data set; [spec_ds_sized] = the property: the index applied
+   to the glued stored arrays of the parts of the selected window / subarray under the selection of the whole.
+   h5 parts ([strict] = false, LazyIndexer): FULL strength.  v4 parts ([strict] = true, DaskLazyIndexer.shape applies the
+   masks at once): every access raises IndexError although the spec answers - _refuted (vm_compute witness); _partial
+   with the guard "every part has the size of the selected window / subarray". *)
+Theorem C19_index_other_sizes_h5 : forall tail tailkeep dt parts ix out,
+  Forall (fun p => KV.Proofs.ConcatDataP.dpart_ok (KV.Model.ConcatData.sp_part p)) parts ->
+  KV.Proofs.ConcatDataP.tail_ok tail tailkeep ->
+  KV.Model.ConcatData.ds_getitem_sized false tail tailkeep dt parts ix = KV.Base.AxisIndex.Ok out ->
+  KV.Model.ConcatData.spec_ds_sized tail tailkeep dt parts ix = KV.Base.AxisIndex.Ok out /\
+  (forall p, In p parts -> KV.Model.ConcatData.fits tail p = false -> KV.Model.ConcatData.has_dump p = false).
+Proof. exact KV.Proofs.ConcatDataP.index_sized_lenient. Qed.
+Print Assumptions C19_index_other_sizes_h5.
+
+Theorem C19_index_other_sizes_v4_refuted :
+  exists tail tailkeep dt parts ix out,
+    Forall (fun p => KV.Proofs.ConcatDataP.dpart_ok (KV.Model.ConcatData.sp_part p)) parts /\
+    KV.Proofs.ConcatDataP.tail_ok tail tailkeep /\
+    (forall p, In p parts -> KV.Model.ConcatData.fits tail p = false -> KV.Model.ConcatData.has_dump p = false) /\
+    KV.Model.ConcatData.spec_ds_sized tail tailkeep dt parts ix = KV.Base.AxisIndex.Ok out /\
+    KV.Model.ConcatData.ds_getitem_sized true tail tailkeep dt parts ix = KV.Base.AxisIndex.Err.
+Proof. exact ConcatDataExP.ex_sized_refuted. Qed.
+Print Assumptions C19_index_other_sizes_v4_refuted.
+
+Theorem C19_index_other_sizes_v4_partial : forall strict tail tailkeep dt parts ix out,
+  Forall (fun p => KV.Proofs.ConcatDataP.dpart_ok (KV.Model.ConcatData.sp_part p)) parts ->
+  KV.Proofs.ConcatDataP.tail_ok tail tailkeep ->
+  forallb (KV.Model.ConcatData.fits tail) parts = true ->
+  KV.Model.ConcatData.ds_getitem_sized strict tail tailkeep dt parts ix = KV.Base.AxisIndex.Ok out ->
+  KV.Model.ConcatData.spec_ds_sized tail tailkeep dt parts ix = KV.Base.AxisIndex.Ok out.
+Proof. exact KV.Proofs.ConcatDataP.index_sized_partial. Qed.
+Print Assumptions C19_index_other_sizes_v4_partial.
+
+(* with parts of one size it is the model of C19_index, strict or not *)
+Theorem C19_index_same_size : forall strict tail tailkeep dt parts ix,
+  forallb (KV.Model.ConcatData.fits tail) parts = true ->
+  KV.Model.ConcatData.ds_getitem_sized strict tail tailkeep dt parts ix
+  = KV.Model.ConcatData.ds_getitem tail tailkeep dt (map KV.Model.ConcatData.sp_part parts) ix.
+Proof. exact KV.Proofs.ConcatDataP.sized_same_size. Qed.
+Print Assumptions C19_index_same_size.
+
 (* ------------------------------------------------------------------ identical subarrays / spectral windows *)
 (* Model/ConcatIdent.v: what Subarray.__eq__ / SpectralWindow.__eq__ compare, component by component as the translator
    re-reads it from _description (fail-closed), and the if-chain of dummy_sensor_getter.  Model/ConcatMulti.v:
@@ -350,6 +427,18 @@ Theorem C19_dummy_table : forall dt, dummy_of_table dummy_value_table dt = dummy
 Proof. exact KV.Proofs.ConcatIdentP.dummy_table_is_model. Qed.
 Print Assumptions C19_dummy_table.
 
+(* ... and for an unsigned integer type of any width (np.issubdtype(uint, np.integer): the integer branch, whose filler the
+   translator found to be np.array(-1).astype(dtype)[()], a cast): the filler of get_sensor_u *)
+Theorem C19_dummy_table_unsigned : forall ubits dt,
+  dummy_of_table_u dummy_value_table dummy_int_is_cast_into_type ubits dt = dummy_code_u ubits dt.
+Proof. exact KV.Proofs.ConcatIdentP.dummy_table_u_is_model. Qed.
+Print Assumptions C19_dummy_table_unsigned.
+
+Theorem C19_dummy_cast_source :
+  dummy_int_is_cast_into_type = true /\ dummy_int_before_cast = dummy_code KV.Model.SensorCache.DInt.
+Proof. exact KV.Proofs.ConcatIdentP.dummy_cast_constants_ok. Qed.
+Print Assumptions C19_dummy_cast_source.
+
 (* ------------------------------------------------------------------ select(subarray=s, spw=w, ...) *)
 (* what the translator finds in DataSet.select: spw= / subarray= default to the current ones; an index beyond the
    lists raises IndexError; switching resets the time mask to (spw_index == spw) & (subarray_index == subarray) and the
@@ -407,3 +496,118 @@ Example C19_select_sw_example :
   ConcatMultiExP.bk_of (run (ConcatMultiExP.exM_mo 1 0) (init (ConcatMultiExP.exM_mo 1 0)) ConcatMultiExP.exM_calls) = [false; true; true].
 Proof. exact ConcatMultiExP.exM_short. Qed.
 Print Assumptions C19_select_sw_example.
+
+(* ------------------------------------------------------------------ metadata of the concatenation (round f) *)
+(* Model/ConcatMeta.v: the block "Merge high-level metadata" of ConcatenatedDataSet.__init__ (anchor: chronological sort
+   and metadata merge).  [dmeta] = one data set as that block reads it (values as ids, '' = 0); [concat_meta] = what the
+   concatenation presents: the six joined strings as the lists of their components, obs_params / receivers as
+   association lists of [One v] (all parts agree) / [Many vs] (the parts' values in time order, '' for a part without the
+   key), start / end time, ref_ant / time_offset, the order of self.datasets. *)
+Import KV.Model.ConcatMeta KV.Proofs.ConcatMetaP.
+Open Scope Z_scope.
+
+(* what the translator finds (item_concat_meta): ref_ant / time_offset from datasets[0] BEFORE the sort, everything else
+   after it; the separator of every joined string; `.get(key, '')`; one value iff itertools.groupby finds one run;
+   start = min, end = max *)
+Theorem C19_meta_source :
+  concat_meta_ref_from_input_head = true /\
+  concat_meta_joins = [("name", ","); ("url", " | "); ("version", ","); ("observer", ","); ("description", " | ");
+                       ("experiment_id", ",")]%string /\
+  concat_meta_dicts = ["obs_params"; "receivers"]%string /\ concat_meta_missing_value = ""%string /\
+  concat_meta_one_value_iff_one_group = true /\ concat_start_is_min_end_is_max = true.
+Proof. exact meta_constants_ok. Qed.
+Print Assumptions C19_meta_source.
+
+(* ANY order of the input list gives the same metadata (and the same refusal) - except ref_ant / time_offset ... *)
+Theorem C19_meta_order_independent : forall l l', Permutation l l' ->
+  option_map forget_ref (concat_meta l) = option_map forget_ref (concat_meta l').
+Proof. exact meta_order_independent. Qed.
+Print Assumptions C19_meta_order_independent.
+
+(* ... which are those of the first data set of the INPUT list, hence order independent too when all parts were opened
+   with the same ref_ant / time_offset, as katdal.open([...], ref_ant, time_offset) does *)
+Theorem C19_meta_ref_is_input_head : forall a t m,
+  concat_meta (a :: t) = Some m -> mm_refant m = dm_refant a /\ mm_toff m = dm_toff a.
+Proof. exact meta_ref_is_input_head. Qed.
+Print Assumptions C19_meta_ref_is_input_head.
+
+Theorem C19_meta_order_independent_same_ref : forall l l', Permutation l l' ->
+  (forall a b, In a l -> In b l -> dm_refant a = dm_refant b /\ dm_toff a = dm_toff b) ->
+  concat_meta l = concat_meta l'.
+Proof. exact meta_order_independent_full. Qed.
+Print Assumptions C19_meta_order_independent_same_ref.
+
+(* self.datasets: a permutation of the input in strictly increasing start time; refused iff no data set or equal
+   start times *)
+Theorem C19_meta_chronological : forall l m, concat_meta l = Some m ->
+  exists ds, Permutation l ds /\ StronglySorted lt_m ds /\ mm_order m = map dm_start ds /\ NoDup (map dm_start l).
+Proof. exact meta_order. Qed.
+Print Assumptions C19_meta_chronological.
+
+Theorem C19_meta_refused : forall l, concat_meta l = None <-> l = [] \/ ~ NoDup (map dm_start l).
+Proof. exact meta_refused. Qed.
+Print Assumptions C19_meta_refused.
+
+(* start_time = the earliest start = the start of the first data set in time order; end_time = the latest end; both
+   are attained by a part and bound every part *)
+Theorem C19_meta_start_end : forall l m, concat_meta l = Some m ->
+  (forall d, In d l -> mm_start m <= dm_start d /\ dm_end d <= mm_end m) /\
+  (exists d, In d l /\ mm_start m = dm_start d) /\ (exists d, In d l /\ mm_end m = dm_end d) /\
+  mm_start m = hd 0 (mm_order m).
+Proof. exact meta_start_end. Qed.
+Print Assumptions C19_meta_start_end.
+
+(* name / url / version / observer / description / experiment_id: every distinct value of the parts exactly once, in
+   order of first appearance over the parts in TIME order *)
+Theorem C19_meta_joined : forall l m, concat_meta l = Some m ->
+  forall (f : dmeta -> Z) (g : mmeta -> list Z),
+    (f = dm_name /\ g = mm_name) \/ (f = dm_url /\ g = mm_url) \/ (f = dm_version /\ g = mm_version) \/
+    (f = dm_observer /\ g = mm_observer) \/ (f = dm_descr /\ g = mm_descr) \/ (f = dm_expid /\ g = mm_expid) ->
+    NoDup (g m) /\ (forall x, In x (g m) <-> exists d, In d l /\ f d = x) /\
+    (exists ds, Permutation l ds /\ StronglySorted lt_m ds /\ g m = unique_in_order Z.eqb (map f ds)).
+Proof. exact meta_joined. Qed.
+Print Assumptions C19_meta_joined.
+
+(* obs_params / receivers of the whole = the merge of the parts' dictionaries in time order ... *)
+Theorem C19_meta_dicts : forall l m, concat_meta l = Some m ->
+  exists ds, Permutation l ds /\ StronglySorted lt_m ds /\
+             mm_params m = merge_dicts (map dm_params ds) /\ mm_rx m = merge_dicts (map dm_rx ds).
+Proof. exact meta_dicts. Qed.
+Print Assumptions C19_meta_dicts.
+
+(* ... of which: keys distinct; a key is there iff some part has it; nothing is lost (for every key and every part the
+   part's own value, or '' when it lacks the key, is read back from the merged entry); a single value stands EXACTLY for
+   "all parts agree"; a list is the list of the parts' values *)
+Theorem C19_merged_dict_laws : forall ds,
+  NoDup (map fst (merge_dicts ds)) /\
+  (forall k, In k (map fst (merge_dicts ds)) <-> exists d, In d ds /\ In k (map fst d)) /\
+  (forall k mv, mget k (merge_dicts ds) = Some mv ->
+     (forall i, (i < List.length ds)%nat -> mval_nth mv i = dget k (nth i ds [])) /\
+     (forall v, mv = One v <-> ds <> [] /\ forall d, In d ds -> dget k d = v) /\
+     (forall vs, mv = Many vs -> vs = map (dget k) ds)) /\
+  (forall k, mget k (merge_dicts ds) = None <-> forall d, In d ds -> ~ In k (map fst d)).
+Proof. exact merge_dicts_laws. Qed.
+Print Assumptions C19_merged_dict_laws.
+
+(* katdal.open([f]) presents the metadata of f itself *)
+Theorem C19_meta_single : forall d, NoDup (map fst (dm_params d)) -> NoDup (map fst (dm_rx d)) ->
+  concat_meta [d] =
+  Some (mkMM [dm_name d] [dm_url d] [dm_version d] [dm_observer d] [dm_descr d] [dm_expid d]
+             (map (fun kv => (fst kv, One (snd kv))) (dm_params d)) (map (fun kv => (fst kv, One (snd kv))) (dm_rx d))
+             (dm_start d) (dm_end d) (dm_refant d) (dm_toff d) [dm_start d]).
+Proof. exact meta_single. Qed.
+Print Assumptions C19_meta_single.
+
+(* C | A | B given out of time order: names / urls in time order, one version, two observers; key 7 missing from B
+   (list with ''), key 8 agreed (single value), key 9 only in C; ref_ant / time_offset of C (the first of the input list,
+   the LAST in time) - and of A when A is given first; equal start times refused *)
+Example C19_meta_example :
+  concat_meta [mC; mA; mB] =
+  Some (mkMM [1; 2; 3] [11; 12; 13] [4] [5; 9] [6] [0]
+             [(7, Many [70; 0; 70]); (8, One 80); (9, Many [0; 0; 90])] [(1, Many [30; 30; 31]); (2, Many [30; 0; 30])]
+             100 340 43 5 [100; 200; 300]) /\
+  option_map forget_ref (concat_meta [mA; mB; mC]) = option_map forget_ref (concat_meta [mC; mA; mB]) /\
+  option_map mm_refant (concat_meta [mA; mB; mC]) = Some 41 /\
+  concat_meta [mA; mA] = None.
+Proof. exact ex_meta. Qed.
+Print Assumptions C19_meta_example.
